@@ -6,8 +6,12 @@
    Kept iv m = result carries metadata m; Dropped iv = result carries none; Err = exception.
    wf_tiset o = canonical intervals with the default 0..n-1 metadata index.
    triples o = the (label, data, metadata row found under that label) of each column / member.
-   NOT MODELLED (exercised by the harness only): save/load, TsGroup merge_group(reset_index=True),
-   TsGroup.merge; in-place corruption of operands cannot be expressed in this functional model. *)
+   The model follows /repo AS REPAIRED (pandas keys of IntervalSet.__getitem__ are positional; merge_group
+   sorts the concatenated metadata by key); the forms as they were before the repairs are kept as
+   iset_get_labels_orig / iset_get_bseries_orig / group_merge_orig with what was right and wrong about them.
+   NOT MODELLED (exercised by the harness only): save/load; merge_group(reset_index=True) is modelled and
+   compared with the implementation but has no theorem; in-place corruption of operands cannot be
+   expressed in this functional model (the harness re-checks the operands after every merge). *)
 From Verif Require Import Base.Prelude Model.Iset Model.Meta Proofs.InterDiffProofs Proofs.MetaProofs.
 From Coq Require Import Permutation.
 
@@ -59,29 +63,51 @@ Theorem C13_iset_index_order_preserving : forall (T : Type) (o : tiset T) ps iv,
 Proof. exact @iset_get_pos_increasing. Qed.
 Print Assumptions C13_iset_index_order_preserving.
 
-(* pd.Index / integer pd.Series keys (.loc on the metadata) = the positional form, because index = 0..n-1 *)
-Theorem C13_iset_index_labels : forall (T : Type) (o : tiset T) ks,
-  wf_tiset o -> Forall (fun k => 0 <= k) ks -> iset_get_labels o ks = iset_get_pos o (map Z.to_nat ks).
-Proof. exact @iset_get_labels_eq_pos. Qed.
-Print Assumptions C13_iset_index_labels.
+(* pd.Index / integer pd.Series keys (np.asarray(key), negative integers wrap): positional, like lists *)
+Theorem C13_iset_index_pandas_int_keys : forall (T : Type) (o : tiset T) ks out m,
+  iset_get_labels o ks = Kept out m ->
+  exists ps, wrap_all (length (fst o)) ks = Some ps /\
+  forall i s e', nth_error out i = Some (s, e') ->
+    exists p e t, nth_error ps i = Some p /\ nth_error (fst o) p = Some (s, e) /\ (e' = e \/ e' = e - us)
+                  /\ nth_error (rows (snd o)) p = Some t /\ loc1 m (Z.of_nat i) = Some t.
+Proof. exact @iset_get_labels_pointwise. Qed.
+Print Assumptions C13_iset_index_pandas_int_keys.
 
-(* boolean pd.Series whose index is the object's index = the positional mask *)
-Theorem C13_iset_index_bool_series_aligned : forall (T : Type) (o : tiset T) mask,
+(* boolean pd.Series, its index in ANY order: exactly the intervals at the True positions, unchanged,
+   each with the row it had; never dropped *)
+Theorem C13_iset_index_bool_series : forall (T : Type) (o : tiset T) mask,
+  wf_tiset o -> length mask = length (fst o) ->
+  iset_get_bseries o mask
+  = Kept (map snd (filter fst (combine (map snd mask) (fst o))))
+         (range_frame (map snd (filter fst (combine (map snd mask) (rows (snd o)))))).
+Proof. exact @iset_get_bseries_total. Qed.
+Print Assumptions C13_iset_index_bool_series.
+
+Theorem C13_iset_index_bool_series_index_irrelevant : forall (T : Type) (o : tiset T) mask mask',
+  map snd mask = map snd mask' -> iset_get_bseries o mask = iset_get_bseries o mask'.
+Proof. exact @iset_get_bseries_index_irrelevant. Qed.
+Print Assumptions C13_iset_index_bool_series_index_irrelevant.
+
+(* the forms BEFORE the repair (metadata by .loc): right on the aligned index, wrong on a re-ordered one *)
+Theorem C13_iset_index_labels_orig : forall (T : Type) (o : tiset T) ks,
+  wf_tiset o -> Forall (fun k => 0 <= k) ks -> iset_get_labels_orig o ks = iset_get_pos o (map Z.to_nat ks).
+Proof. exact @iset_get_labels_orig_eq_pos. Qed.
+Print Assumptions C13_iset_index_labels_orig.
+
+Theorem C13_iset_index_bool_series_orig_aligned : forall (T : Type) (o : tiset T) mask,
   wf_tiset o -> map fst mask = rangeZ (length (fst o)) ->
-  iset_get_bseries o mask = iset_get_pos o (mask_pos (map snd mask)).
-Proof. exact @iset_get_bseries_aligned. Qed.
-Print Assumptions C13_iset_index_bool_series_aligned.
+  iset_get_bseries_orig o mask = iset_get_pos o (mask_pos (map snd mask)).
+Proof. exact @iset_get_bseries_orig_aligned. Qed.
+Print Assumptions C13_iset_index_bool_series_orig_aligned.
 
-(* REFUTED for a boolean pd.Series whose index is in another order: intervals are taken by position,
-   rows by label, and the result carries another interval's row (replayed on /repo: candidate finding) *)
-Theorem C13_iset_index_bool_series_permuted_refuted :
+Theorem C13_iset_index_bool_series_orig_refuted :
   exists (o : tiset Z) mask out m,
     wf_tiset o /\ Permutation (map fst mask) (rangeZ (length (fst o)))
-    /\ iset_get_bseries o mask = Kept out m
+    /\ iset_get_bseries_orig o mask = Kept out m
     /\ exists s e t p, nth_error out 0 = Some (s, e) /\ loc1 m 0 = Some t
                        /\ nth_error (fst o) p = Some (s, e) /\ nth_error (rows (snd o)) p <> Some t.
-Proof. exact iset_get_bseries_refuted. Qed.
-Print Assumptions C13_iset_index_bool_series_permuted_refuted.
+Proof. exact iset_get_bseries_orig_refuted. Qed.
+Print Assumptions C13_iset_index_bool_series_orig_refuted.
 
 (* ---- intersect / set_diff / split: each output interval lies in the parent(s) whose row it carries ---- *)
 Theorem C13_intersect_parents : forall (T U : Type) (a : tiset T) (b : tiset U),
@@ -197,14 +223,21 @@ Theorem C13_group_merge_attach : forall (M T : Type) (a b o' : tgroup M T),
 Proof. exact @group_merge_attach. Qed.
 Print Assumptions C13_group_merge_attach.
 
-(* REFUTED: merge_group of two well-formed groups with disjoint but interleaved keys raises instead of
-   carrying the metadata through the merge (replayed on /repo: candidate finding) *)
-Theorem C13_group_merge_interleaved_refuted :
+(* merge_group ALWAYS returns for well-formed groups with disjoint keys (interleaved or not); with
+   C13_group_merge_attach: the merged group holds every key with its own member and its own row *)
+Theorem C13_group_merge_total : forall (M T : Type) (a b : tgroup M T),
+  wf_group a -> wf_group b -> (forall k, In k (map fst (fst a)) -> ~ In k (map fst (fst b))) ->
+  exists o', group_merge false a b = Some o'.
+Proof. exact @group_merge_total. Qed.
+Print Assumptions C13_group_merge_total.
+
+(* before the repair (metadata concatenated, not sorted) interleaved keys made merge_group raise *)
+Theorem C13_group_merge_orig_interleaved_refuted :
   exists (a b : tgroup Z Z), wf_group a /\ wf_group b
     /\ (forall k, In k (map fst (fst a)) -> ~ In k (map fst (fst b)))
-    /\ group_merge false a b = None.
-Proof. exact group_merge_interleaved_refuted. Qed.
-Print Assumptions C13_group_merge_interleaved_refuted.
+    /\ group_merge_orig a b = None.
+Proof. exact group_merge_orig_interleaved_refuted. Qed.
+Print Assumptions C13_group_merge_orig_interleaved_refuted.
 
 Example C13_nonvacuous :
   wf_tiset ([(0, 10); (20, 30); (40, 50)], range_frame [100; 200; 300])
@@ -218,6 +251,8 @@ Example C13_nonvacuous :
      = Some ([(5, 50); (7, 70)], [(5, 500); (7, 700)])
   /\ group_get_keys ([(1, 10); (4, 40); (9, 90)], [(1, 100); (4, 400); (9, 900)]) [9; 1]
      = Some ([(1, 10); (9, 90)], [(1, 100); (9, 900)])
-  /\ group_merge false ([(1, 10); (2, 20)], [(1, 100); (2, 200)]) ([(3, 30)], [(3, 300)])
-     = Some ([(1, 10); (2, 20); (3, 30)], [(1, 100); (2, 200); (3, 300)]).
+  /\ group_merge false ([(1, 10); (5, 50)], [(1, 100); (5, 500)]) ([(2, 20); (3, 30)], [(2, 200); (3, 300)])
+     = Some ([(1, 10); (2, 20); (3, 30); (5, 50)], [(1, 100); (2, 200); (3, 300); (5, 500)])
+  /\ iset_get_bseries ([(0, 10); (20, 30)], range_frame [100; 200]) [(1, true); (0, false)]
+     = Kept [(0, 10)] [(0, 100)].
 Proof. vm_compute. repeat split; try reflexivity; lia. Qed.
